@@ -1103,12 +1103,13 @@ class Hyperplane(Subspace):
         return self.proj_data[..., 1:, :]
 
     def _compute_ideal_basis(self, vector):
-        spacelike_vector = DualPoint(vector).proj_data
+        # one (1, n) block per normal vector, so that an array of
+        # normals gives an array of hyperplanes (rather than being read
+        # as the rows of a single partial isometry)
+        spacelike_vector = np.expand_dims(DualPoint(vector).proj_data,
+                                          axis=-2)
         n = spacelike_vector.shape[-1]
         transform = spacelike_to(spacelike_vector)
-
-        if len(spacelike_vector.shape) < 2:
-            spacelike_vector = np.expand_dims(spacelike_vector, axis=0)
 
         standard_ideal_basis = np.vstack(
             [np.ones((1, n-1)), np.eye(n - 1, n - 1, -1)]
@@ -1169,7 +1170,10 @@ class Hyperplane(Subspace):
             np.real(evecs), np.expand_dims(reflected, axis=(-1,-2)), axis=-1
         )
 
-        return Hyperplane(spacelike.swapaxes(-1,-2))
+        #one (1, n) block of normals per reflection; drop the
+        #singleton axis again afterwards
+        hyperplanes = Hyperplane(spacelike.swapaxes(-1,-2))
+        return Hyperplane(hyperplanes.proj_data[..., 0, :, :])
 
 class TangentVector(PointPair):
     """Model for a tangent vector in hyperbolic space."""
